@@ -14,7 +14,9 @@ from props import c02
 
 RULE_FED = ("fedlab part: (a) two hand-written federations -- an interface whose implementers are entities extended by two other "
             "subgraphs with a @requires field, a shareable field and a second key (27 operations x 12 protected sets), and a "
-            "federation with mutation root fields in two subgraphs (16 operations x 8 protected sets: protected / denied mutation root fields, two and three root fields executed serially, a root field returning an entity with nested query-typed entity fetches that carry two or three protected root fields); the interface federation also "
+            "federation with mutation root fields in two subgraphs, and a federation whose protected fields sit below LISTS OF LISTS "
+            "([[Cell]], [[[Cell!]!]!], [[Shape]] with an interface item, [[Tag]] inside an entity-fetched subtree; 16 operations x 5 "
+            "protected sets) (mutation federation: 16 operations x 8 protected sets: protected / denied mutation root fields, two and three root fields executed serially, a root field returning an entity with nested query-typed entity fetches that carry two or three protected root fields); the interface federation also "
             "has object- and list-valued interface fields (one covariant) selected bare and under `... on T`, and three @defer "
             "operations (for those only sentinel_absent over all flushed frames, fetch_gate on the request log and "
             "collector_complete on the questions asked are evaluated) -- and (b) generated "
@@ -25,7 +27,14 @@ RULE_FED = ("fedlab part: (a) two hand-written federations -- an interface whose
             "all coordinates an authorizer can be asked about for it (response positions and the collector's list, which "
             "includes planner-added @key/@requires inputs): all 2^n when n <= 6, else 200 (thorough tier; 64 in the quick tier) random ones "
             "incl. allow-all and deny-all; each runs through ExecutionEngine.Execute with engine.WithAuthorizer (post-fetch) "
-            "and with engine.WithPreFetchFieldAuthorizer (pre-fetch). Operations whose un-authorized run already differs "
+            "and with engine.WithPreFetchFieldAuthorizer (pre-fetch). The loader's OTHER pre-fetch hooks are a generated dimension of "
+            "the runs (`(hooks ..)`): rate limiting (RateLimitOptions.Enable + a RateLimiter that lets every request pass / rejects "
+            "every request; put on the request's resolve.Context by the authorizer when the engine first hands the context out) and "
+            "request tracing; hand-written federations: every run with a denial also under an allowing limiter and one of (rejecting "
+            "limiter | tracing | both), generated ones: one hook set per run (5/10 none, 2/10 allowing limiter, 1/10 each limiter + "
+            "tracing, tracing, rejecting limiter); an allowing limiter and tracing must be transparent for every clause, under a "
+            "rejecting limiter nothing that carries a FetchInfo may be sent. In every fourth generated configuration up to three "
+            "list-valued fields are turned into lists of lists (type and stored values). Operations whose un-authorized run already differs "
             "from the monolith are skipped (C01 territory). A run is non-trivial when at least one denied position holds a "
             "non-null value in the un-authorized response; an operation line is non-trivial when the plan carries a protected "
             "coordinate. Distinct by hash of the line.")
@@ -78,6 +87,10 @@ def _distribution(cases, results):
             d["operation_lines"] += 1
             if "(gocoords)" not in c:
                 d["plans_with_protected_coordinate"] += 1
+            if "(arr (arr " in c:
+                d["plans_with_list_of_lists"] = d.get("plans_with_list_of_lists", 0) + 1
+                if re.search(r"\(arr \(arr (?:\(arr )*\(obj[^\n]*?\(info \"[^\"]*\" \"[^\"]*\" t ", c):
+                    d["plans_with_rule_below_list_of_lists"] = d.get("plans_with_rule_below_list_of_lists", 0) + 1
             m = re.search(r"\(domain((?: \"[^\"]*\")*)\)", c)
             if m:
                 n = str(len(m.group(1).split()))
@@ -101,6 +114,15 @@ def _distribution(cases, results):
                 d["runs_protected_two_paths"] += int(m.group(4)) > 0
                 d["requests_sent"] += int(m.group(7))
                 d["requests_saved_vs_baseline"] += max(0, int(m.group(8)) - int(m.group(7)))
+            m = re.search(r"\(hooks (\w+) (\w) (\d+)\)", c)
+            if m:
+                hk = d.setdefault("hooks", {})
+                hk[m.group(1)] = hk.get(m.group(1), 0) + 1
+                if m.group(2) == "t":
+                    d["runs_limiter_on_context"] = d.get("runs_limiter_on_context", 0) + 1
+                    d["limiter_consultations"] = d.get("limiter_consultations", 0) + int(m.group(3))
+            if "(arr (arr " in c:
+                d["runs_nested_list_plan"] = d.get("runs_nested_list_plan", 0) + 1
             if "(deferred t)" in c:
                 d["runs_deferred"] = d.get("runs_deferred", 0) + 1
             if "(ref (skip))" in c:
@@ -194,7 +216,20 @@ def run(chk):
     # ---- planner / loader part on the federation lab
     state, cases = run_fed(chk)
     more = state.pop("_more", None)
+    # conclude_differential reports the five SHORTEST failing cases: keep the shortest unclassified case per clause so
+    # that the replays cover the distinct clauses that fail (plan-level AND run-level: the leak itself, the request log)
+    full = list(state.get("specfail", []))
+    if full:
+        best = {}
+        for (k, c, dd) in full:
+            if k is None:
+                name = dd.split(" ")[0]
+                if name not in best or len(c) < len(best[name][1]):
+                    best[name] = (k, c, dd)
+        state["specfail"] = [x for x in full if x[0] is not None] + list(best.values())
     vlib.conclude_differential(chk, state, more)
+    if full:
+        chk.coverage["spec_failures_on_impl_output"] = max(chk.coverage.get("spec_failures_on_impl_output") or 0, len(full))
     fed = {k: chk.coverage.get(k) for k in ("evaluations", "distinct_nontrivial", "correspondence_mismatches",
                                              "spec_failures_on_impl_output")}
     chk.coverage["parts"] = {"renderer": {k: rend[k] for k in ("evaluations", "distinct_nontrivial", "correspondence_mismatches",
@@ -213,7 +248,8 @@ def run(chk):
         "fedlab part: Coq 8.16.1 kernel; extraction ExtrOcamlBasic only; ocaml/common/prelude.ml + ocaml/c14/driver.ml (S-expression "
         "reader, member sorting before json_eqb, native substring search re-checking the Go sentinel scan)",
         "hand-written model (coq/C14/Model.v) of collect_authorization_coordinates.go, FieldAuthorization.authorizePreFetch/decide/"
-        "denyReason, fieldAuthorizationCoordinate/authorizeField up to the decide call, isFetchAuthorizedFromCache/fetchOperationType; "
+        "denyReason, fieldAuthorizationCoordinate/authorizeField up to the decide call, isFetchAuthorizedFromCache/fetchOperationType, "
+        "validatePreFetch/rateLimitFetch; "
         "tied by exact equality of the coordinate list on the real plan, of the batch authorizer's recorded questions, and of the "
         "sent / not-sent verdict per planned fetch; the decision cache is keyed by the triple itself (Go: xxhash64 of it -- "
         "collisions are outside the model)",
@@ -227,6 +263,15 @@ def run(chk):
         "pre-fetch mode: the plan-time coordinate of an occurrence on an abstract type is read off the real plan (the planner may "
         "rewrite the abstract selection per possible type); that the planner marks every protected field (HasAuthorizationRule) is "
         "checked by the position walk and the sentinel scan, not proved",
+        "hooks dimension: the ExecutionEngine exposes no execution option for a rate limiter, so the harness' recording authorizer "
+        "puts it on the request's resolve.Context (SetRateLimiter, RateLimitOptions.Enable) when the engine first hands the context "
+        "out -- AuthorizeFields before any fetch (pre-fetch mode; not at all when the plan carries no protected coordinate), "
+        "AuthorizePreFetch of the first protected mutation root field (legacy mode); the run line records whether it was installed "
+        "and how often it was consulted; limiter errors and per-fetch selective limiters are covered by the theorems only "
+        "(validate_pre_fetch is stated for every limiter function); loader hooks (LoaderHooks.OnLoad) are not reachable through the engine",
+        "list-of-lists coverage: nested lists whose items need an entity fetch from another subgraph are not exercised -- the loader "
+        "never executes such a fetch (work/c14_nested_list_entity_fetch.md, C01 territory) and the operation is skipped as a "
+        "baseline divergence",
         "out of the lab's reach: subscriptions (authorizeSubscriptionPreFetch and per-update authorization); @defer only on three "
         "hand-written operations (frames scanned for sentinels, deferred fetches gated; the incremental payloads are not merged and "
         "compared position by position); "
@@ -258,9 +303,9 @@ def replay(chk, path):
             chk.log("replay: no case identity in %s" % l[:120])
             continue
         flt = ""
-        mm = re.search(r'\(mode (\w+)\) \(optype \w+\) \(d "([^"]*)"\)', l)
+        mm = re.search(r'\(mode (\w+)\) \(optype \w+\) \(d "([^"]*)"\)(?: \(hooks (\w+) )?', l)
         if mm:
-            flt = " -mode %s -d %s" % (mm.group(1), mm.group(2) or "-")
+            flt = " -mode %s -d %s -hooks %s" % (mm.group(1), mm.group(2) or "-", mm.group(3) or "none")
         if m.group(1) == "gen":
             cmd = "%s gen -seed %s -from %s -n 1 -p %s -op %s%s -out {out}" % (exe, m.group(2), m.group(3), m.group(4), m.group(5), flt)
         else:
